@@ -43,11 +43,13 @@ var rec *mon.Rec
 // ---- harness CA (once per process)
 
 var (
-	caKey   *ecdsa.PrivateKey
-	caCert  *x509.Certificate
-	intKey  *ecdsa.PrivateKey
-	intCert *x509.Certificate
-	serial  atomic.Int64
+	caKey    *ecdsa.PrivateKey
+	caCert   *x509.Certificate
+	intKey   *ecdsa.PrivateKey
+	intCert  *x509.Certificate
+	rollKey  *ecdsa.PrivateKey
+	rollCert *x509.Certificate
+	serial   atomic.Int64
 )
 
 func initCA() {
@@ -89,6 +91,21 @@ func initCA() {
 		rec.Fatalf("intermediate cert: %v", err)
 	}
 	intCert, _ = x509.ParseCertificate(der)
+	// a rolled-over intermediate ("new-with-old"): new key, the SAME name as the intermediate that signs it
+	rollKey, err = ecdsa.GenerateKey(elliptic.P256(), rand.Reader)
+	if err != nil {
+		rec.Fatalf("roll-over key: %v", err)
+	}
+	rt := *it
+	rt.SerialNumber = big.NewInt(3)
+	der, err = x509.CreateCertificate(rand.Reader, &rt, intCert, &rollKey.PublicKey, intKey)
+	if err != nil {
+		rec.Fatalf("roll-over cert: %v", err)
+	}
+	rollCert, _ = x509.ParseCertificate(der)
+	if !bytes.Equal(rollCert.RawIssuer, rollCert.RawSubject) || rollCert.CheckSignatureFrom(rollCert) == nil {
+		rec.Fatalf("roll-over cert is not self-issued-but-not-self-signed")
+	}
 	serial.Store(100)
 }
 
@@ -134,6 +151,7 @@ type request struct {
 	serial     int64
 	pub        []byte
 	anchors    string
+	chain      [][]byte // the issued chain (DER), leaf first
 }
 
 type issuer struct {
@@ -160,6 +178,12 @@ type issuer struct {
 	// anchorsUseKit: the trust-anchor source is itself built on the library - it PEM-encodes its CA with
 	// kit's crypto/pem on every call (and so touches whatever package-level state that encoder has)
 	anchorsUseKit bool
+	// chainShape: what the issued chain looks like beyond the leaf. "plain" = [leaf, intermediate];
+	// "with-root" = the self-signed root is appended as well; "rollover" = the leaf is signed by a rolled-over
+	// intermediate key whose certificate is self-ISSUED (same name as the old intermediate, which signed it)
+	// but not self-signed: [leaf, new-with-old, intermediate, root]; "same-dn-leaf" = the leaf's subject name
+	// equals its issuer's name. Only certificates that really are self-signed may be left out of cert.pem.
+	chainShape string
 }
 
 func (is *issuer) tellRenewalReturned(ok bool) {
@@ -268,7 +292,18 @@ func (is *issuer) request(ctx context.Context, csrDER []byte) ([]*x509.Certifica
 			tmpl.URIs = []*url.URL{{Scheme: "https", Host: "example.org", Path: "/not-spiffe"}}
 		}
 	}
-	der, err := x509.CreateCertificate(rand.Reader, tmpl, intCert, csr.PublicKey, intKey)
+	signer, signerKey := intCert, intKey
+	tail := []*x509.Certificate{intCert}
+	switch is.chainShape {
+	case "with-root":
+		tail = []*x509.Certificate{intCert, caCert}
+	case "rollover":
+		signer, signerKey = rollCert, rollKey
+		tail = []*x509.Certificate{rollCert, intCert, caCert}
+	case "same-dn-leaf":
+		tmpl.Subject = intCert.Subject
+	}
+	der, err := x509.CreateCertificate(rand.Reader, tmpl, signer, csr.PublicKey, signerKey)
 	if err != nil {
 		return nil, err
 	}
@@ -276,18 +311,22 @@ func (is *issuer) request(ctx context.Context, csrDER []byte) ([]*x509.Certifica
 	if err != nil {
 		return nil, err
 	}
+	issued := append([]*x509.Certificate{leaf}, tail...)
 	if oc.Fail {
 		is.mu.Lock()
 		r.end = time.Now()
 		is.mu.Unlock()
-		return []*x509.Certificate{leaf, intCert}, nil
+		return issued, nil
 	}
 	is.mu.Lock()
 	r.ok, r.nb, r.na, r.serial = !anchorsErr, leaf.NotBefore, leaf.NotAfter, sn
 	r.anchors = fmt.Sprintf("anchors-v%d", is.anchorsV.Load())
+	for _, c := range issued {
+		r.chain = append(r.chain, c.Raw)
+	}
 	r.end = time.Now()
 	is.mu.Unlock()
-	return []*x509.Certificate{leaf, intCert}, nil
+	return issued, nil
 }
 
 func (is *issuer) snapshot() []request {
@@ -327,12 +366,13 @@ func (a anchors) Run(ctx context.Context) error              { <-ctx.Done(); ret
 // ---- world
 
 type world struct {
-	idx   int
-	mode  string
-	desc  string
-	steps []string
-	viol  atomic.Bool
-	is    *issuer
+	idx        int
+	mode       string
+	desc       string
+	steps      []string
+	viol       atomic.Bool
+	chainShape string
+	is         *issuer
 }
 
 func (w *world) step(s string) { w.steps = append(w.steps, s); rec.Progress() }
@@ -386,7 +426,7 @@ func TestCheck(t *testing.T) {
 	defer rec.Close()
 	initCA()
 	rec.Note("rule", "a case is one scenario against the real SPIFFE object in a synctest bubble with a scripted issuer signing real SVIDs: (order) each of the six first-call orders of Run / Ready / GetX509SVID from separate goroutines x initial fetch succeeding or failing x consumer additionally parked inside GetX509SVID while it holds the read lock; (renewal) a seeded script of 3-8 issuer outcomes (validity windows from 2 s to 30 days, already past half-life, expired, not yet valid; failures: an issuer error, an empty answer, or a signed chain without a usable SPIFFE ID) with the virtual clock advanced in seeded steps of seconds to hours, optionally writing the identity to a directory and rotating the trust anchors. Non-trivial = the issuer received at least one request; distinct = distinct scenario description.")
-	rec.Note("require", []string{"order.get_first", "order.ready_first", "order.run_first", "order.initial_fetch_failed", "order.second_run_refused", "order.run_context_ended_during_initial_fetch", "order.consumer_parked_with_rlock", "renewal.requests", "renewal.on_time", "renewal.retry_after_failure", "renewal.served_latest_checked", "renewal.fresh_keys_checked", "renewal.unusable_answer_scripted", "renewal.get_during_inflight_renewal", "renewal.reader_parked_across_renewal", "renewal.consumer_get_at_publication", "files.sets_checked", "anchors.source_uses_kit_pem_encoder", "files.undisturbed_after_failed_fetch"})
+	rec.Note("require", []string{"order.get_first", "files.chain_shape.plain", "files.chain_shape.with-root", "files.chain_shape.rollover", "files.chain_shape.same-dn-leaf", "order.ready_first", "order.run_first", "order.initial_fetch_failed", "order.second_run_refused", "order.run_context_ended_during_initial_fetch", "order.consumer_parked_with_rlock", "renewal.requests", "renewal.on_time", "renewal.retry_after_failure", "renewal.served_latest_checked", "renewal.fresh_keys_checked", "renewal.unusable_answer_scripted", "renewal.get_during_inflight_renewal", "renewal.reader_parked_across_renewal", "renewal.consumer_get_at_publication", "files.sets_checked", "anchors.source_uses_kit_pem_encoder", "files.undisturbed_after_failed_fetch"})
 	ps := plans()
 	rec.Planned(len(ps))
 	for idx, pl := range ps {
@@ -643,7 +683,8 @@ func runRenewal(t *testing.T, idx int, rng *mon.RNG) {
 	}
 	withDir := rng.Chance(1, 2)
 	rotate := rng.Chance(1, 2)
-	w := &world{idx: idx, mode: "renewal", desc: fmt.Sprintf("script=%v dir=%v rotateAnchors=%v", ds, withDir, rotate)}
+	chainShape := []string{"plain", "with-root", "rollover", "same-dn-leaf"}[(idx/2)%4]
+	w := &world{idx: idx, mode: "renewal", chainShape: chainShape, desc: fmt.Sprintf("script=%v dir=%v rotateAnchors=%v chain=%s", ds, withDir, rotate, chainShape)}
 	rec.Begin(idx, w.mode+" "+w.desc)
 	var target string
 	if withDir {
@@ -656,7 +697,7 @@ func runRenewal(t *testing.T, idx int, rng *mon.RNG) {
 		defer os.RemoveAll(filepath.Dir(target))
 	}
 	res := mon.Bubble(t, func() {
-		is := &issuer{script: script, withDir: withDir, anchorsUseKit: idx%2 == 0, renewalReturned: make(chan bool, 256)}
+		is := &issuer{script: script, withDir: withDir, anchorsUseKit: idx%2 == 0, chainShape: chainShape, renewalReturned: make(chan bool, 256)}
 		w.is = is
 		var dp *string
 		if withDir {
@@ -1016,9 +1057,33 @@ func checkFiles(w *world, target string, want *request) {
 		w.violation("files/key-cert-mismatch", "key.pem does not belong to cert.pem: the file set mixes two fetches")
 		return
 	}
-	if c2, _ := pem.Decode(rest); c2 == nil || !bytes.Equal(c2.Bytes, intCert.Raw) {
-		w.violation("files/chain-incomplete", "cert.pem does not hold the issued chain")
-		return
+	// the rest of cert.pem is the rest of the issued chain, in order; only certificates that verify under
+	// their own key (self-signed roots) may be missing
+	notSelfSigned := func(ders [][]byte) (out []string) {
+		for _, d := range ders {
+			c, err := x509.ParseCertificate(d)
+			if err == nil && c.CheckSignatureFrom(c) == nil {
+				continue
+			}
+			out = append(out, fmt.Sprintf("%x", d))
+		}
+		return out
+	}
+	var published [][]byte
+	for {
+		var b *pem.Block
+		b, rest = pem.Decode(rest)
+		if b == nil {
+			break
+		}
+		published = append(published, b.Bytes)
+	}
+	if len(want.chain) > 0 {
+		if got, exp := notSelfSigned(published), notSelfSigned(want.chain[1:]); strings.Join(got, ",") != strings.Join(exp, ",") {
+			w.violation("files/chain-incomplete/"+w.chainShape, fmt.Sprintf("cert.pem holds %d certificates after the leaf (%d not self-signed), the issued chain has %d (%d not self-signed): the published chain is not the issued one", len(published), len(got), len(want.chain)-1, len(exp)))
+			return
+		}
+		rec.Count("files.chain_shape."+w.chainShape, 1)
 	}
 	if string(caPEM) != want.anchors {
 		w.violation("files/ca-not-current", fmt.Sprintf("ca.pem holds %q, the trust anchors at fetch time were %q", caPEM, want.anchors))
